@@ -63,6 +63,7 @@ type Witness struct {
 	Tag     string        `json:"tag"`
 	Draws   []Draw        `json:"draws"`
 	Obs     []Observation `json:"observations,omitempty"`
+	size    int
 }
 
 // Config bounds one harness run.
@@ -552,18 +553,33 @@ func (ex *explorer) violation(kind, msg, where string) {
 	}
 }
 
+func drawsSize(ds []Draw) int {
+	n := 0
+	for _, d := range ds {
+		n += len(d.terms) + 1
+	}
+	return n
+}
+
+// reached records a witness for tag: the first path that gets there and, under tag+"#max",
+// the one with the largest input seen so far (so that native validation is not only run on
+// the empty input).
 func (ex *explorer) reached(tag string) {
 	s := ex.shared
+	size := drawsSize(ex.draws)
 	s.mu.Lock()
-	_, ok := s.Witnesses[tag]
+	_, have := s.Witnesses[tag]
+	big, haveBig := s.Witnesses[tag+"#max"]
 	s.mu.Unlock()
-	if ok {
+	if have && haveBig && big.size >= size {
 		return
 	}
-	w := &Witness{Harness: s.cfg.Harness, Tag: tag, Draws: ex.evalDraws(), Obs: ex.evalObs()}
+	w := &Witness{Harness: s.cfg.Harness, Tag: tag, Draws: ex.evalDraws(), Obs: ex.evalObs(), size: size}
 	s.mu.Lock()
 	if _, ok := s.Witnesses[tag]; !ok {
 		s.Witnesses[tag] = w
+	} else if b, ok := s.Witnesses[tag+"#max"]; !ok || b.size < size {
+		s.Witnesses[tag+"#max"] = w
 	}
 	s.mu.Unlock()
 }
